@@ -379,6 +379,12 @@ let monitors id (label : sx) (pre : istate) (post : istate) (dl : (n * n * n * r
       | None -> ())
    | _ -> ())
 
+(* the narrow shape of finding F-07c: every leaf on which the two sides differ lies beneath a stored tombstone *)
+let below_tombstone_only (c : cmap config) (a : (string * string) list) (b : (string * string) list) : bool =
+  let tombs = List.filter_map (fun (_, v) -> if v.pv_deleted then Some v.pv_path else None) (overlay c.c_inline c.c_values @ overlay c.c_ainline c.c_avalues) in
+  let differing = List.filter (fun x -> not (List.mem x b)) a @ List.filter (fun x -> not (List.mem x a)) b in
+  differing <> [] && List.for_all (fun (p, _) -> List.exists (fun t -> is_path_below (bytes_of_string p) t) tombs) differing
+
 (* ------------------------------------------------------------------ end-of-history monitors *)
 let end_monitors hid (st : istate) quiescent (nb : sx) (gets : string) =
   let w = st.w in
@@ -417,7 +423,7 @@ let end_monitors hid (st : istate) quiescent (nb : sx) (gets : string) =
       if c.c_state = CSynchronized && not in_flight && not pending_apply && int_of_n c.c_applied = int_of_n c.c_committed then begin
         let dev = match List.assoc_opt (n_of_int t) (w_devs w) with Some d -> List.sort compare (List.map (fun (p, v) -> (str_of p, str_of v)) d.d_state) | None -> [] in
         if dev <> live_of c then
-          specviol hid "c04_device_differs" (Printf.sprintf "target %d device=[%s] stored=[%s]" t
+          specviol hid (if below_tombstone_only c dev (live_of c) then "c03_recreate_under_tombstone" else "c04_device_differs") (Printf.sprintf "target %d device=[%s] stored=[%s]" t
             (String.concat "," (List.map (fun (p, v) -> p ^ "=" ^ v) dev)) (String.concat "," (List.map (fun (p, v) -> p ^ "=" ^ v) (live_of c))))
       end) cfgs;
   (* C08: answers of the northbound calls *)
@@ -462,7 +468,7 @@ let end_monitors hid (st : istate) quiescent (nb : sx) (gets : string) =
          let leaves = if rest = "." then [] else List.map (fun kv -> match String.split_on_char '=' kv with
            | [ p; v ] -> (str_of (unhex p), str_of (unhex v)) | _ -> ("?", "?")) (String.split_on_char ',' rest) in
          if List.sort compare leaves <> live_of c then
-           specviol hid "c03_get_differs_from_store" (Printf.sprintf "target %d Get=[%s] stored=[%s]" t
+           specviol hid (if below_tombstone_only c (List.sort compare leaves) (live_of c) then "c03_recreate_under_tombstone" else "c03_get_differs_from_store") (Printf.sprintf "target %d Get=[%s] stored=[%s]" t
              (String.concat "," (List.map (fun (p, v) -> p ^ "=" ^ v) (List.sort compare leaves))) (String.concat "," (List.map (fun (p, v) -> p ^ "=" ^ v) (live_of c))))
        | _ -> ())) (String.split_on_char ';' gets)
 
@@ -474,7 +480,7 @@ let oracle_of (pre : istate) (label : sx) (dl : (n * n * n * req * code) list) c
       (atom v <> "0", ty = "64657669636573696d")
     | _ -> (true, true) in
   let answer = match dl with (_, _, _, _, c) :: _ -> c | [] -> COk in
-  { o_plugin = plugin; o_verdict = verdict; o_answer = answer; o_choice = n_of_int choice }
+  { o_plugin = plugin; o_verdict = verdict; o_answer = answer; o_choice = n_of_int (choice mod 4); o_order = n_of_int (choice / 4) }
 
 let ctrl_of (label : sx) : (ctrl * string) option =
   match lst label with
@@ -505,14 +511,21 @@ let tx_orders (w0 : (cmap, cmap, req, dstate) world) (i : n) : (cmap, cmap, req,
   | _ -> [ w0 ]
 
 (* the model's outcomes of a label from the implementation's own pre-state *)
-let model_posts (pre : istate) (label : sx) (post : istate option) dl : ((cmap, cmap, req, dstate) world * string) list =
+let model_posts (pre : istate) (label : sx) (post : istate option) dl : (unit -> (cmap, cmap, req, dstate) world * string) list =
   let w0 = pre.w in
   match ctrl_of label with
   | Some (c, budget) ->
-    let choices = match c with CtlMaster _ -> [ 0; 1; 2; 3 ] | _ -> [ 0 ] in
+    (* environment choices that cannot be observed beforehand: the random master (4 values) and, for a commit,
+       the Go map order in which the cascaded change values are applied (up to 5! orders) *)
+    let choices = match c with
+      | CtlMaster _ -> [ 0; 1; 2; 3 ]
+      | CtlProp k when (match List.assoc_opt (int_of_n (fst k), int_of_n (snd k)) (props_of w0) with
+                        | Some p -> p.p_commit = Some Doing && p.p_apply = None && p.p_abort = None | None -> false) ->
+        List.init 120 (fun i -> 4 * i)
+      | _ -> [ 0 ] in
     let starts = match c with CtlTx i when budget <> "all" -> tx_orders w0 i | _ -> [ w0 ] in
     List.concat_map (fun w1 ->
-      List.map (fun ch ->
+      List.map (fun ch () ->
         let o = oracle_of pre label dl ch in
         let effs, _res = p2_reconcile o w1 c in
         let k = if budget = "all" then List.length effs else prefix_for_calls effs (int_of_string budget) in
@@ -521,11 +534,11 @@ let model_posts (pre : istate) (label : sx) (post : istate option) dl : ((cmap, 
         (p2_step w1 (LRec (c, nat_of_int k, o)), Printf.sprintf "k=%d/%d" k (List.length effs))) choices) starts
   | None ->
     (match lst label with
-     | [ A "connup"; c; t ] -> [ (p2_step w0 (LConnUp (num c, num t)), "") ]
-     | [ A "conndown"; c ] -> [ (p2_step w0 (LConnDown (num c)), "") ]
-     | [ A "foreignrel"; c; t ] -> [ (p2_step w0 (LForeignRel (num c, num t)), "") ]
-     | [ A "devrestart"; t ] -> [ (p2_step w0 (LDevRestart (num t)), "") ]
-     | [ A "nbrollback"; ri ] -> [ (p2_step w0 (LRollback (num ri)), "") ]
+     | [ A "connup"; c; t ] -> [ fun () -> (p2_step w0 (LConnUp (num c, num t)), "") ]
+     | [ A "conndown"; c ] -> [ fun () -> (p2_step w0 (LConnDown (num c)), "") ]
+     | [ A "foreignrel"; c; t ] -> [ fun () -> (p2_step w0 (LForeignRel (num c, num t)), "") ]
+     | [ A "devrestart"; t ] -> [ fun () -> (p2_step w0 (LDevRestart (num t)), "") ]
+     | [ A "nbrollback"; ri ] -> [ fun () -> (p2_step w0 (LRollback (num ri)), "") ]
      | [ A "nbchange" ] ->
        (* the logged transaction is read off the observation; the model appends exactly it *)
        (match post with
@@ -533,24 +546,31 @@ let model_posts (pre : istate) (label : sx) (post : istate option) dl : ((cmap, 
           let nx = next_index w0 in
           (match List.assoc_opt (int_of_n nx) (txs_of p.w) with
            | Some t -> (match t.t_details with
-               | TChange chs -> [ (p2_step w0 (LChange (chs, t.t_sync, t.t_serializable)), "") ]
-               | TRollback ri -> [ (p2_step w0 (LRollback ri), "") ])
-           | None -> [ (w0, "no transaction logged") ])
-        | None -> [ (w0, "") ])
-     | _ -> [ (w0, "") ])
+               | TChange chs -> [ fun () -> (p2_step w0 (LChange (chs, t.t_sync, t.t_serializable)), "") ]
+               | TRollback ri -> [ fun () -> (p2_step w0 (LRollback ri), "") ])
+           | None -> [ fun () -> (w0, "no transaction logged") ])
+        | None -> [ fun () -> (w0, "") ])
+     | _ -> [ fun () -> (w0, "") ])
 
 let validate id (label : sx) (pre : istate) (post : istate) dl =
   let posts = model_posts pre label (Some post) dl in
   let ci = canon post.w in
-  let results = List.map (fun (w, info) -> (diff_canon (canon w) ci, w, info)) posts in
-  match List.find_opt (fun (d, _, _) -> d = None) results with
-  | Some (_, w, _) ->
+  let first = ref None in
+  let rec search = function
+    | [] -> None
+    | th :: rest ->
+      let (w, info) = th () in
+      let d = diff_canon (canon w) ci in
+      if !first = None then first := Some (d, info);
+      if d = None then Some w else search rest in
+  match search posts with
+  | Some w ->
     (* device requests: the model's new log entries against the observed ones *)
     let ml = List.sort compare (List.map (fun (DevSet (t, c, term, _, r, a)) -> s_req (t, c, term, r, a)) (devlog w)) in
     let il = List.sort compare (List.map s_req dl) in
     if ml <> il then mismatch id (Printf.sprintf "device requests of step %s: model=%s impl=%s" (match label with L (A a :: _) -> a | _ -> "?") (String.concat ";" ml) (String.concat ";" il))
   | None ->
-    let (d, _, info) = List.hd results in
+    let (d, info) = match !first with Some x -> x | None -> (None, "") in
     mismatch id (Printf.sprintf "step %s %s: %s" (String.concat " " (List.map (function A a -> a | L _ -> "(..)") (lst label))) info (match d with Some s -> s | None -> ""))
 
 let label_name (label : sx) = match lst label with
@@ -597,8 +617,8 @@ let () =
           | _ -> ());
          let posts = model_posts pre label None [] in
          let ci = canon pre.w in
-         if not (List.exists (fun (w, _) -> diff_canon (canon w) ci = None && devlog w = []) posts) then begin
-           let (w, info) = List.hd posts in
+         if not (List.exists (fun th -> let (w, _) = th () in diff_canon (canon w) ci = None && devlog w = []) posts) then begin
+           let (w, info) = (List.hd posts) () in
            mismatch id (Printf.sprintf "implementation did nothing on %s; model %s: %s" (String.concat " " (List.map (function A a -> a | L _ -> "(..)") (lst label))) info
                           (match diff_canon (canon w) ci with Some s -> s | None -> "device request " ^ String.concat ";" (List.map (fun (DevSet (t, c, term, _, r, a)) -> s_req (t, c, term, r, a)) (devlog w))))
          end
